@@ -536,7 +536,7 @@ func intrinsicName(fn *ssa.Function) string {
 		return s
 	case strings.HasPrefix(s, "(*sync.Mutex)."), strings.HasPrefix(s, "(*sync.RWMutex)."), strings.HasPrefix(s, "(*sync.WaitGroup)."), strings.HasPrefix(s, "(*sync.Once)."), strings.HasPrefix(s, "(*sync.Cond)."):
 		return s
-	case s == "errors.New", s == "fmt.Errorf", s == "errors.Is", s == "github.com/gotid/god/lib/timex.Now", s == "time.Now", s == "fmt.Sprintf", s == "fmt.Sprint":
+	case s == "errors.New", s == "fmt.Errorf", s == "errors.Is", s == "github.com/gotid/god/lib/timex.Now", s == "github.com/gotid/god/lib/timex.Since", s == "time.Now", s == "fmt.Sprintf", s == "fmt.Sprint":
 		return s
 	}
 	return ""
@@ -620,8 +620,15 @@ func (x *Exec) intrinsic(st *State, fr *Frame, resInstr ssa.Instruction, name st
 		st.assume(implies(and(eq(a.Tag, intLit(0)), not(eq(b.Tag, intLit(0)))), not(r)))
 		set(Scalar{r, types.Typ[types.Bool]})
 		return nil, true
-	case name == "github.com/gotid/god/lib/timex.Now":
-		t := x.freshValue(st, "now", resT(0)).(Scalar)
+	case name == "github.com/gotid/god/lib/timex.Now", name == "github.com/gotid/god/lib/timex.Since":
+		// one reading of the monotone relative clock; Since(d) = reading - d
+		nowFn := fn
+		if fn.Name() != "Now" && fn.Pkg != nil {
+			if f := fn.Pkg.Func("Now"); f != nil {
+				nowFn = f
+			}
+		}
+		t := x.freshValue(st, "now", nowFn.Signature.Results().At(0).Type()).(Scalar)
 		last, ok := st.lets["$now"]
 		if ok {
 			st.assume(mk(SBool, ">=", t.T, last.(Scalar).T))
@@ -633,8 +640,12 @@ func (x *Exec) intrinsic(st *State, fr *Frame, resInstr ssa.Instruction, name st
 		if _, ok := st.lets["$now0"]; !ok {
 			st.lets["$now0"] = t
 		}
-		st.events = append(st.events, &Event{Kind: "call", Name: "timex.Now", Callee: x.funcValue(fn, nil), Results: []Value{t}, Index: len(st.events)})
-		set(t)
+		st.events = append(st.events, &Event{Kind: "call", Name: "timex.Now", Callee: x.funcValue(nowFn, nil), Results: []Value{t}, Index: len(st.events)})
+		if fn.Name() == "Since" {
+			set(Scalar{mk(SInt, "-", t.T, args[0].(Scalar).T), resT(0)})
+		} else {
+			set(t)
+		}
 		return nil, true
 	case name == "fmt.Sprintf", name == "fmt.Sprint":
 		set(x.freshValue(st, "sprintf", resT(0)))
